@@ -400,7 +400,18 @@ func Rapid[C any](r *Run, t *testing.T, ck Check[C], n int, gen func(*rapid.T) C
 	if n <= 0 {
 		return
 	}
+	if r.Violations() >= 4 {
+		// four violations are on record: the verdict is settled, and shrinking a fifth, sixth, ... failing
+		// check (a change that breaks every construct fails a hundred of them) only risks the deadline
+		r.Class("checks_skipped_after_4_violations")
+		return
+	}
 	_ = flag.Set("rapid.checks", strconv.Itoa(n))
+	if r.Violations() >= 1 {
+		_ = flag.Set("rapid.shrinktime", "5s")
+	} else {
+		_ = flag.Set("rapid.shrinktime", "30s")
+	}
 	_ = flag.Set("rapid.seed", strconv.FormatUint(r.RapidSeed(ck.Name), 10))
 	_ = flag.Set("rapid.nofailfile", "true")
 	_ = flag.Set("rapid.failfile", "")
